@@ -62,6 +62,9 @@ FAMILIES = {
     "temperature": ["K"],
     "frequency": ["Hz", "1/s", "1/yr"],
     "wavenumber": ["1/cm", "1/m"],
+    "force": ["dyn", "N"],
+    "pressure": ["Ba", "Pa", "erg/cm**3", "J/m**3"],
+    "acceleration": ["cm/s**2", "m/s**2", "km/s/yr"],
     "dimensionless": ["dimensionless", "cm/m", "km/m", "percent", "g/kg"],
 }
 FAMILY_OF = {u: fam for fam, us in FAMILIES.items() for u in us}
@@ -82,6 +85,36 @@ SYMBOL = {
 
 class UnknownUnit(Exception):
     pass
+
+
+# accepted physical values (cgs) of the units osyris defines itself, with the relative latitude within which a
+# definition counts as "the accepted value" (IAU 2015 B3 nominal radii and luminosities are exact; masses follow from
+# GM / G and differ between compilations by a few 1e-4; CODATA radiation constant)
+ACCEPTED = {
+    "solar_mass": (1.98841e33, 1e-3), "earth_mass": (5.9722e27, 1e-3), "jupiter_mass": (1.89813e30, 1e-3),
+    "solar_radius": (6.957e10, 1e-6), "earth_radius": (6.3781e8, 1e-6), "jupiter_radius": (7.1492e9, 1e-6),
+    "solar_luminosity": (3.828e33, 1e-6), "bolometric_luminosity": (3.0128e35, 1e-6),
+    "radiation_constant": (7.565733e-15, 1e-4),
+}
+_CALIBRATED = {}
+
+
+def calibrate(osyris):
+    """Take the factors of the nine osyris-defined units from the live registry when they lie within the accepted
+    latitude (a maintainer may legitimately update solar_mass to the current IAU value: every check would otherwise
+    report the new number as a wrong conversion).  A definition outside the latitude keeps the frozen factor, so it is
+    reported (by C08's catalogue and by every conversion that involves it)."""
+    for name, (val, tol) in ACCEPTED.items():
+        f, dims = TABLE[name]
+        base = "cm**{}*g**{}*s**{}*K**{}".format(*[float(x) for x in dims])
+        try:
+            live = float((1.0 * osyris.units(name)).to(base).magnitude)
+        except Exception:
+            continue
+        if abs(live / val - 1) <= tol:
+            TABLE[name] = (live, dims)
+            _CALIBRATED[name] = live
+    return dict(_CALIBRATED)
 
 
 def umul(a, b):
